@@ -70,7 +70,10 @@ func c11Setup(state string) (string, uint64, []fsx.Op) {
 	return "", 3000, nil
 }
 
-const c11NHandles = 18
+const c11NHandles = 22
+
+// number of inodes of every disk the checks use (the table has a fixed size; C15 audits the layout)
+const c11NInode = 1024 * 32
 
 func c11Handles(w *World) [][]byte {
 	raw := func(ino, gen uint64) []byte {
@@ -90,6 +93,8 @@ func c11Handles(w *World) [][]byte {
 		{}, {1, 2, 3}, make([]byte, 8), make([]byte, 15), get("root"), get("root/a"), get("root/d"), get("dead:root/gone"), get("root/s"),
 		raw(0, 0), raw(1<<64-1, 1), raw(40000, 1), raw(500, 1), raw(2, 99), append(append([]byte{}, get("root/a")...), 0), long,
 		append(append([]byte{}, get("root/d")...), 7), longd, // a directory's handle with trailing bytes
+		// around the end of the inode table (1024 blocks of 32 inodes): the last number, the first one beyond it, the next
+		raw(c11NInode-1, 0), raw(c11NInode, 0), raw(c11NInode, 1), raw(c11NInode+1, 0),
 	}
 }
 
@@ -522,7 +527,7 @@ func init() {
 
 func C11(r *report.Report, tier string) {
 	states := []string{"populated", "tinyfull", "maxsparse", "inodes", "moveddir"}
-	r.Rule = "structural: per procedure the full product of boundary domains - 18 handles (empty, 3/8/15 bytes, root, file, directory, symlink, dead, inode 0 / 2^64-1 / beyond the table / free / wrong generation, a file's and a directory's handle extended to 17 and 64 bytes), 15 names (empty, ., .., existing, new, 114 and 224 bytes in two-byte characters, 111/112/113/255/256/4096 bytes), 11 offsets/sizes up to 2^64-1, counts {0,1,4096,wtmax-1,wtmax,wtmax+1,2^32-1} with data lengths that agree and disagree, cookies, dircount/maxcount, stability and create modes incl. illegal ones; RENAME/LINK over all pairs of handles; in the states populated (objects in recycled inodes) / tiny full disk / maximal sparse file / inode table exhausted but for two numbers (32765 files) / a directory moved into another parent; bytes: for one valid request per procedure (22 NFS + 6 MOUNT) every truncation, an extension, and every substitution of each 32-bit word by {0,1,2,3,63,64,65,0x7fffffff,0xffffffff}, decoded and executed through the registered rpcgen handlers; every call and every mutated message meets the named state on a fresh server instance (snapshot; once just started with cold caches, and - quick: populated state, thorough: all states - once after lookups, reads and listings have filled the inode and name caches) under the controlled scheduler: a reply (or a decode rejection) must arrive - no panic, no deadlock, no runaway (400000 scheduling points per request) - and the sanity script (create, write, read back, lookup, remove, list) must succeed on the same instance afterwards. distinct_nontrivial = distinct (procedure, status) pairs"
+	r.Rule = "structural: per procedure the full product of boundary domains - 22 handles (empty, 3/8/15 bytes, root, file, directory, symlink, dead, inode 0 / 2^64-1 / beyond the table / the last number of the table, the first beyond it and the next / free / wrong generation, a file's and a directory's handle extended to 17 and 64 bytes), 15 names (empty, ., .., existing, new, 114 and 224 bytes in two-byte characters, 111/112/113/255/256/4096 bytes), 11 offsets/sizes up to 2^64-1, counts {0,1,4096,wtmax-1,wtmax,wtmax+1,2^32-1} with data lengths that agree and disagree, cookies, dircount/maxcount, stability and create modes incl. illegal ones; RENAME/LINK over all pairs of handles; in the states populated (objects in recycled inodes) / tiny full disk / maximal sparse file / inode table exhausted but for two numbers (32765 files) / a directory moved into another parent; bytes: for one valid request per procedure (22 NFS + 6 MOUNT) every truncation, an extension, and every substitution of each 32-bit word by {0,1,2,3,63,64,65,0x7fffffff,0xffffffff}, decoded and executed through the registered rpcgen handlers; every call and every mutated message meets the named state on a fresh server instance (snapshot; once just started with cold caches, and - quick: populated state, thorough: all states - once after lookups, reads and listings have filled the inode and name caches) under the controlled scheduler: a reply (or a decode rejection) must arrive - no panic, no deadlock, no runaway (400000 scheduling points per request) - and the sanity script (create, write, read back, lookup, remove, list) must succeed on the same instance afterwards. distinct_nontrivial = distinct (procedure, status) pairs"
 	var jobs []interface{}
 	var descs []c11Arg
 	for _, st := range states {
